@@ -138,6 +138,24 @@
 //     span started after SetTracerProvider returned, "reaches the SDK" is read
 //     as: the SDK records it with that kind, that attribute and the outer
 //     span's span context as its parent (none for a background context).
+//   - "Obtained from the global API" covers every way a library gets hold of a
+//     tracer / provider handle: otel.Tracer, otel.GetTracerProvider().Tracer,
+//     the TracerProvider() of a span VALUE a global tracer's Start returned, the
+//     TracerProvider() of trace.SpanFromContext(the CONTEXT that Start
+//     returned) (Tracer.Start is documented to return "a Context containing the
+//     newly-created span"; Span.TracerProvider() to give a provider "on the same
+//     telemetry pipeline as the current Span"), immediately or later from a
+//     span / context the program held on to. The context given to Start is a
+//     generated dimension: background, a valid remote / local span context with
+//     any trace-flags byte, a span context that is not valid (trace id or span
+//     id missing), or a context an earlier Start returned. Every tracer handle
+//     obtained by any route forwards after installation (span_lost otherwise).
+//     The installed SDK samples everything (AlwaysSample) so that an unsampled
+//     generated parent does not make the SDK drop the span by design. A span
+//     started after installation with a context that carries a valid span
+//     context is recorded as its child (same reading as for child spans: the
+//     span reaches the SDK as it was made); with a context without a valid span
+//     context it has no valid parent.
 //   - Two goroutines of one phase may Unregister the same Registration
 //     concurrently (a third of the programs), also while SetMeterProvider runs.
 //   - Deadlock freedom: the program simply runs to completion; a hang is turned
@@ -201,6 +219,39 @@ type Op struct {
 	CSp int    `json:"csp,omitempty"` // span: id of the child
 	TD  int    `json:"td,omitempty"`  // span: tracer slot TD-1 is obtained (scope S) from the span's TracerProvider()
 	Nat bool   `json:"nat,omitempty"` // inst (observable kinds): created directly on the Meter of the SDK that is (going to be) installed, same scope as meter slot U, not through the global API
+	Pk  int    `json:"pk,omitempty"`  // span: the context Start is given: 0 background, 1 carries a valid REMOTE span context, 2 a valid local (non-remote) span context, 3 a span context that is not valid (trace id or span id missing), 4 the context an earlier Start returned (saved-context slot Px-1)
+	Pf  int    `json:"pf,omitempty"`  // span (Pk 1..3): trace flags byte of that span context (0..255; Pk 3: odd = the trace id is missing, even = the span id)
+	Px  int    `json:"px,omitempty"`  // span with Pk 4 / tprov: saved-context slot Px-1 (tprov with Px 0: otel.GetTracerProvider())
+	Cx  int    `json:"cx,omitempty"`  // span: the context Start returned and the span value are kept in saved-context slot Cx-1 (a library that holds on to them)
+	TV  int    `json:"tv,omitempty"`  // span with TD / tprov with Px: the provider is 0 = the span VALUE's TracerProvider(), 1 = trace.SpanFromContext(the context Start returned).TracerProvider()
+}
+
+// parentKinds names Op.Pk for class labels and messages.
+var parentKinds = []string{"background", "valid_remote_parent", "valid_local_parent", "invalid_span_context", "saved_context"}
+
+// genParent is the span context put into the context a span op with Pk 1..3
+// starts with (a function of the span id, the flags byte is generated).
+func genParent(pk, pf, id int) trace.SpanContext {
+	var tid trace.TraceID
+	var sid trace.SpanID
+	tid[0], tid[13], tid[14], tid[15] = 0xc1, byte(id>>16), byte(id>>8), byte(id)
+	sid[0], sid[5], sid[6], sid[7] = 0x16, byte(id>>16), byte(id>>8), byte(id)
+	if pk == 3 {
+		if pf&1 == 1 {
+			tid = trace.TraceID{}
+		} else {
+			sid = trace.SpanID{}
+		}
+	}
+	return trace.NewSpanContext(trace.SpanContextConfig{TraceID: tid, SpanID: sid, TraceFlags: trace.TraceFlags(byte(pf)), Remote: pk == 1})
+}
+
+// savedCtx is what a span op with Cx keeps: the context Start returned, the
+// span value, and what the span value's SpanContext() returned.
+type savedCtx struct {
+	ctx  context.Context
+	span trace.Span
+	sc   trace.SpanContext
 }
 
 // Case is one generated program.
@@ -649,6 +700,7 @@ type opRec struct {
 	note       string
 	panicked   string
 	outer      trace.SpanContext // span: what the outer span's SpanContext() returned
+	parent     trace.SpanContext // span: the span context the context given to Start carried (zero value: none / not valid)
 }
 
 type collKey struct{}
@@ -694,6 +746,7 @@ type world struct {
 	props   []propagation.TextMapPropagator
 	meters  []metric.Meter
 	tracers []trace.Tracer
+	saved   []*savedCtx
 	insts   []any
 	regs    []metric.Registration
 
@@ -906,7 +959,9 @@ func runOnce(c Case) ([]vk.Violation, map[string]bool) {
 	}
 	rejected := func(op Op) bool { return op.Bad != 0 || (c.Wrap && op.Ref) }
 	w.sp = &recSP{clock: clock, ended: map[string][]spanSeen{}, start: map[string]int{}}
-	w.tp = sdktrace.NewTracerProvider(sdktrace.WithSpanProcessor(w.sp), sdktrace.WithResource(resource.Empty()))
+	// AlwaysSample: the generated parent span contexts carry any flags byte; the
+	// default sampler would (correctly) drop the children of unsampled parents
+	w.tp = sdktrace.NewTracerProvider(sdktrace.WithSpanProcessor(w.sp), sdktrace.WithResource(resource.Empty()), sdktrace.WithSampler(sdktrace.AlwaysSample()))
 	w.pr = &recProp{}
 	defer func() {
 		_ = w.mp.Shutdown(context.Background())
@@ -916,7 +971,7 @@ func runOnce(c Case) ([]vk.Violation, map[string]bool) {
 	}()
 
 	// ---- static tables from the program text ----
-	var nMprov, nTprov, nProp, nMeter, nTracer, nInst, nCB int
+	var nMprov, nTprov, nProp, nMeter, nTracer, nInst, nCB, nCtx int
 	each := func(f func(ph, g, i int, op Op)) {
 		for ph, phase := range c.Phases {
 			for g, ops := range phase {
@@ -942,6 +997,9 @@ func runOnce(c Case) ([]vk.Violation, map[string]bool) {
 			if op.TD > 0 {
 				maxSlot(&nTracer, op.TD-1)
 			}
+			if op.Cx > 0 {
+				maxSlot(&nCtx, op.Cx-1)
+			}
 		case "inst":
 			maxSlot(&nInst, op.D)
 			if op.OC {
@@ -956,12 +1014,16 @@ func runOnce(c Case) ([]vk.Violation, map[string]bool) {
 	w.props = make([]propagation.TextMapPropagator, nProp)
 	w.meters = make([]metric.Meter, nMeter)
 	w.tracers = make([]trace.Tracer, nTracer)
+	w.saved = make([]*savedCtx, nCtx)
 	w.insts = make([]any, nInst)
 	w.regs = make([]metric.Registration, nCB)
 	meterScope := make([]int, nMeter)
 	meterPhase := make([]int, nMeter)
 	tracerScope := make([]int, nTracer)
 	tracerPhase := make([]int, nTracer)
+	tracerHow := make([]string, nTracer) // how the program got hold of the tracer handle (for messages)
+	tprovHow := make([]string, nTprov)
+	ctxHow := make([]string, nCtx)
 	propPhase := make([]int, nProp)
 	im := make([]instMeta, nInst)
 	cm := make([]cbMeta, nCB)
@@ -988,12 +1050,38 @@ func runOnce(c Case) ([]vk.Violation, map[string]bool) {
 			}
 			tracerScope[op.D], tracerPhase[op.D] = op.S, ph
 		case "span":
+			if op.Pk < 0 || op.Pk >= len(parentKinds) || op.Cx < 0 || op.Px < 0 || op.Px > nCtx || (op.Pk == 4 && op.Px == 0) {
+				valid = false
+				return
+			}
+			how := fmt.Sprintf("span sp%d (started in phase %d with a context of kind %s)", op.Sp, ph, parentKinds[op.Pk])
+			if op.Cx > 0 {
+				ctxHow[op.Cx-1] = how
+			}
 			if op.TD > 0 {
 				if op.S < 0 || op.S >= len(scopes) {
 					valid = false
 					return
 				}
 				tracerScope[op.TD-1], tracerPhase[op.TD-1] = op.S, ph
+				if op.TV == 1 {
+					tracerHow[op.TD-1] = "trace.SpanFromContext(the context Start returned).TracerProvider().Tracer(..) of " + how
+				} else {
+					tracerHow[op.TD-1] = "TracerProvider().Tracer(..) of the span value of " + how
+				}
+			}
+		case "tprov":
+			if op.Px < 0 || op.Px > nCtx {
+				valid = false
+				return
+			}
+			switch {
+			case op.Px == 0:
+				tprovHow[op.D] = fmt.Sprintf("otel.GetTracerProvider() in phase %d", ph)
+			case op.TV == 1:
+				tprovHow[op.D] = fmt.Sprintf("trace.SpanFromContext(saved context %d).TracerProvider() in phase %d", op.Px-1, ph)
+			default:
+				tprovHow[op.D] = fmt.Sprintf("TracerProvider() of the saved span value %d in phase %d", op.Px-1, ph)
 			}
 		case "prop":
 			propPhase[op.D] = ph
@@ -1065,6 +1153,20 @@ func runOnce(c Case) ([]vk.Violation, map[string]bool) {
 		classes["malformed_program(no assertion)"] = true
 		return nil, classes
 	}
+	each(func(_, _, _ int, op Op) {
+		if op.K == "tprov" && op.Px > 0 {
+			tprovHow[op.D] += ", kept from " + ctxHow[op.Px-1]
+		}
+	})
+	each(func(_, _, _ int, op Op) {
+		if op.K == "tracer" {
+			if op.Dir {
+				tracerHow[op.D] = "otel.Tracer(..)"
+			} else {
+				tracerHow[op.D] = fmt.Sprintf("Tracer(..) on provider handle %d (%s)", op.U, tprovHow[op.U])
+			}
+		}
+	})
 
 	type injRec struct {
 		injected, extracted, fields bool
@@ -1090,7 +1192,16 @@ func runOnce(c Case) ([]vk.Violation, map[string]bool) {
 		case "mprov":
 			w.mprovs[op.D] = otel.GetMeterProvider()
 		case "tprov":
-			w.tprovs[op.D] = otel.GetTracerProvider()
+			switch {
+			case op.Px == 0:
+				w.tprovs[op.D] = otel.GetTracerProvider()
+			case w.saved[op.Px-1] == nil:
+				r.skipped = true
+			case op.TV == 1:
+				w.tprovs[op.D] = trace.SpanFromContext(w.saved[op.Px-1].ctx).TracerProvider()
+			default:
+				w.tprovs[op.D] = w.saved[op.Px-1].span.TracerProvider()
+			}
 		case "prop":
 			w.props[op.D] = otel.GetTextMapPropagator()
 		case "meter":
@@ -1135,12 +1246,36 @@ func runOnce(c Case) ([]vk.Violation, map[string]bool) {
 			}
 		case "span":
 			if tr := w.tracers[op.U]; tr != nil {
+				switch op.Pk {
+				case 1:
+					r.parent = genParent(op.Pk, op.Pf, op.Sp)
+					ctx = trace.ContextWithRemoteSpanContext(ctx, r.parent)
+				case 2:
+					r.parent = genParent(op.Pk, op.Pf, op.Sp)
+					ctx = trace.ContextWithSpanContext(ctx, r.parent)
+				case 3:
+					ctx = trace.ContextWithSpanContext(ctx, genParent(op.Pk, op.Pf, op.Sp))
+				case 4:
+					if sv := w.saved[op.Px-1]; sv != nil {
+						ctx = sv.ctx
+						if sv.sc.IsValid() {
+							r.parent = sv.sc
+						}
+					}
+				}
 				ctx2, sp := tr.Start(ctx, fmt.Sprintf("sp%d", op.Sp), spanOpts(op.Kn, op.At, op.Sp)...)
 				r.note = fmt.Sprintf("recording=%v", sp.IsRecording())
 				r.outer = sp.SpanContext()
+				if op.Cx > 0 {
+					w.saved[op.Cx-1] = &savedCtx{ctx: ctx2, span: sp, sc: r.outer}
+				}
 				if op.TD > 0 {
 					sc := scopes[op.S]
-					w.tracers[op.TD-1] = sp.TracerProvider().Tracer(sc.name, tracerOpts(sc)...)
+					if op.TV == 1 {
+						w.tracers[op.TD-1] = trace.SpanFromContext(ctx2).TracerProvider().Tracer(sc.name, tracerOpts(sc)...)
+					} else {
+						w.tracers[op.TD-1] = sp.TracerProvider().Tracer(sc.name, tracerOpts(sc)...)
+					}
 				}
 				if op.In > 0 {
 					if tr2 := w.tracers[op.In-1]; tr2 != nil {
@@ -1894,7 +2029,7 @@ func runOnce(c Case) ([]vk.Violation, map[string]bool) {
 		case len(seen) > 1:
 			bad("span_recorded_twice", "span %s reached the SDK span processor %d times", name, len(seen))
 		case len(seen) == 0 && r.start > tpRet:
-			bad("span_lost", "span %s (started t=%d in phase %d through tracer handle %d obtained in phase %d; child of another span: %v) never reached the SDK although SetTracerProvider had returned at t=%d (%s)", name, r.start, ph, trSlot, tracerPhase[trSlot], child, tpRet, r.note)
+			bad("span_lost", "span %s (started t=%d in phase %d through tracer handle %d obtained in phase %d by %s; child of another span: %v) never reached the SDK although SetTracerProvider had returned at t=%d (%s)", name, r.start, ph, trSlot, tracerPhase[trSlot], tracerHow[trSlot], child, tpRet, r.note)
 		case len(seen) == 1 && r.end < tpIss:
 			bad("span_before_install_recorded", "span %s ended (t=%d) before SetTracerProvider was issued (t=%d) but reached the SDK", name, r.end, tpIss)
 		}
@@ -1925,8 +2060,15 @@ func runOnce(c Case) ([]vk.Violation, map[string]bool) {
 				if seen[0].parent.SpanID() != r.outer.SpanID() || (r.outer.IsValid() && seen[0].sc.TraceID() != r.outer.TraceID()) {
 					bad("span_parent_lost", "span %s was started (t=%d, after SetTracerProvider returned at t=%d, through tracer handle %d) with the context returned by the Start of span sp%d (span context %s/%s): the SDK recorded parent span id %s, trace id %s", name, r.start, tpRet, trSlot, op.Sp, r.outer.TraceID(), r.outer.SpanID(), seen[0].parent.SpanID(), seen[0].sc.TraceID())
 				}
-			} else if seen[0].parent.IsValid() {
-				bad("span_parent_lost", "span %s was started with a background context, the SDK recorded parent span id %s", name, seen[0].parent.SpanID())
+			} else if !r.parent.IsValid() {
+				if seen[0].parent.IsValid() {
+					bad("span_parent_lost", "span %s was started with a context of kind %s that carries no valid span context, the SDK recorded parent span id %s", name, parentKinds[op.Pk], seen[0].parent.SpanID())
+				}
+			} else {
+				classes["span_after_install_started_with_valid_parent_in_context:"+parentKinds[op.Pk]] = true
+				if seen[0].parent.SpanID() != r.parent.SpanID() || seen[0].sc.TraceID() != r.parent.TraceID() {
+					bad("span_parent_lost", "span %s was started (t=%d, after SetTracerProvider returned at t=%d, through tracer handle %d obtained by %s) with a context of kind %s carrying span context %s/%s: the SDK recorded parent span id %s, trace id %s", name, r.start, tpRet, trSlot, tracerHow[trSlot], parentKinds[op.Pk], r.parent.TraceID(), r.parent.SpanID(), seen[0].parent.SpanID(), seen[0].sc.TraceID())
+				}
 			}
 		}
 	}
@@ -2052,6 +2194,15 @@ func structure(c Case) (preUsedAfter, unregRace bool, cl map[string]bool) {
 	count := map[string]int{}
 	kindsSeen := map[int]bool{}
 	fromSpan := map[int]bool{}
+	// how the program got hold of each tracer handle: route and, when the route
+	// goes through a span, the kind of context that span was started with and
+	// the phase it was started in
+	type origin struct {
+		via    string
+		pk, ph int
+		span   bool
+	}
+	tracerVia, tprovVia, ctxVia := map[int]origin{}, map[int]origin{}, map[int]origin{}
 	for ph, phase := range c.Phases {
 		for g, ops := range phase {
 			for _, op := range ops {
@@ -2061,12 +2212,37 @@ func structure(c Case) (preUsedAfter, unregRace bool, cl map[string]bool) {
 					if !op.Dir {
 						cl["meter_through_provider_handle"] = true
 					}
+				case "tprov":
+					tprovVia[op.D] = origin{via: "provider_handle"}
+					if op.Px > 0 {
+						o := ctxVia[op.Px-1]
+						o.via = "provider_handle_from_kept_span_value"
+						if op.TV == 1 {
+							o.via = "provider_handle_from_span_in_kept_context"
+						}
+						tprovVia[op.D] = o
+					}
 				case "tracer":
 					tracerPh[op.D] = ph
+					tracerVia[op.D] = origin{via: "otel.Tracer"}
+					if !op.Dir {
+						tracerVia[op.D] = tprovVia[op.U]
+					}
 				case "span":
+					pk := op.Pk
+					if pk < 0 || pk >= len(parentKinds) {
+						pk = 0
+					}
+					if op.Cx > 0 {
+						ctxVia[op.Cx-1] = origin{pk: pk, ph: ph, span: true}
+					}
 					if op.TD > 0 {
 						tracerPh[op.TD-1] = ph
 						fromSpan[op.TD-1] = true
+						tracerVia[op.TD-1] = origin{via: "span_value.TracerProvider()", pk: pk, ph: ph, span: true}
+						if op.TV == 1 {
+							tracerVia[op.TD-1] = origin{via: "SpanFromContext(returned_context).TracerProvider()", pk: pk, ph: ph, span: true}
+						}
 					}
 				case "inst":
 					instPh[op.D] = ph
@@ -2175,9 +2351,22 @@ func structure(c Case) (preUsedAfter, unregRace bool, cl map[string]bool) {
 						if fromSpan[op.U] {
 							cl["tracer_from_pre_install_span.TracerProvider()_used_after_install"] = true
 						}
+						if o := tracerVia[op.U]; o.via != "" {
+							l := "pre_install_tracer_used_after_install:via=" + o.via
+							cl[l] = true
+							if o.span {
+								cl[l+":span_started_with="+parentKinds[o.pk]] = true
+							}
+						}
 						if autoTracer[op.U] {
 							cl["auto:tracer_that_started_auto_spans_used_after_install"] = true
 						}
+					}
+					if o := tracerVia[op.U]; hasTP && ph > tpPh && o.span && o.ph < tpPh && tracerPh[op.U] > tpPh {
+						cl["tracer_obtained_after_install_from_span_kept_since_before_install:via="+o.via] = true
+					}
+					if hasTP && ph > tpPh && op.Pk == 4 && ctxVia[op.Px-1].ph < tpPh {
+						cl["span_after_install_started_with_context_kept_since_before_install"] = true
 					}
 					if c.AutoOn && hasTP && ph < tpPh && ph < c.AutoOff {
 						autoTracer[op.U] = true
@@ -2293,7 +2482,7 @@ func TestGlobalDelegation(t *testing.T) {
 	vk.Run(t, vk.Spec[Case]{
 		Property: "C16", Check: "global_delegation",
 		Rule: "generated five-phase concurrent programs over the public otel API, each executed twice from pristine globals: phase 0 (1-2 goroutines, before installation) obtains provider / propagator handles, meters and tracers (4 scopes with version / schema URL / attributes; tracers also from the TracerProvider() of a placeholder span), instruments of all 14 kinds (shared identities, option callbacks), registers callbacks over any subset of a meter's observables (also none; placeholders and, 1 in 6, instruments obtained directly from the not yet installed SDK; in half of the programs one 'bare' scope whose placeholder meter owns no placeholder instrument at all, only SDK instruments and callbacks) and unregisters some; " +
-			"phase 1 (1-7 goroutines) does the same plus measurements, spans, Inject/Extract, Collect while 1-3 goroutines each call otel.SetMeterProvider / SetTracerProvider / SetTextMapPropagator with one recording SDK (1-3 ManualReaders, recording SpanProcessor, recording propagator), 50% of the programs with a 'storm' (a meter with up to 10 instruments and 8 callbacks that a dedicated goroutine unregisters while the SDK is installed); phase 2 (1-4 goroutines) continues through old and new handles; phase 3 uses every handle once more and collects; phase 4 (>= 2 readers) lets every reader collect concurrently while the callbacks yield/sleep inside; about 1 instrument in 12 has a name the SDK refuses (callbacks on it are rejected at installation); in 40% of the programs the installed provider is a wrapper of the harness that refuses marked instruments (about 1 in 12) with (nil, err) and callbacks touching them; about 1 measurement in 5 carries 0 / an extreme / a float special value in a data point of its own, half of the callbacks also observe 0; in 40% of the programs the auto-instrumentation flag is on from the start (spans through placeholder tracers before installation are auto-SDK spans) and switched off at a generated phase barrier or never; self-installs (SetX(GetX())) anywhere; in 70% of the programs the installed MeterProvider is a wrapper that counts, per callback of the program, the RegisterCallback / Unregister calls reaching the SDK; spans carry generated start options (kind, attribute), a third start a child span in their context through any tracer handle; in a third of the programs goroutines of one phase Unregister the same Registration concurrently; " +
+			"phase 1 (1-7 goroutines) does the same plus measurements, spans, Inject/Extract, Collect while 1-3 goroutines each call otel.SetMeterProvider / SetTracerProvider / SetTextMapPropagator with one recording SDK (1-3 ManualReaders, recording SpanProcessor, recording propagator), 50% of the programs with a 'storm' (a meter with up to 10 instruments and 8 callbacks that a dedicated goroutine unregisters while the SDK is installed); phase 2 (1-4 goroutines) continues through old and new handles; phase 3 uses every handle once more and collects; phase 4 (>= 2 readers) lets every reader collect concurrently while the callbacks yield/sleep inside; about 1 instrument in 12 has a name the SDK refuses (callbacks on it are rejected at installation); in 40% of the programs the installed provider is a wrapper of the harness that refuses marked instruments (about 1 in 12) with (nil, err) and callbacks touching them; about 1 measurement in 5 carries 0 / an extreme / a float special value in a data point of its own, half of the callbacks also observe 0; in 40% of the programs the auto-instrumentation flag is on from the start (spans through placeholder tracers before installation are auto-SDK spans) and switched off at a generated phase barrier or never; self-installs (SetX(GetX())) anywhere; in 70% of the programs the installed MeterProvider is a wrapper that counts, per callback of the program, the RegisterCallback / Unregister calls reaching the SDK; spans carry generated start options (kind, attribute), a third start a child span in their context through any tracer handle; every Start is given a generated context (background / valid remote or local span context with any flags byte / not valid span context / a context an earlier Start returned); tracer handles are obtained by every route (otel.Tracer, provider handle, the span value's TracerProvider(), trace.SpanFromContext(returned context).TracerProvider(), provider handles taken later from a kept span value / kept context), in 40% of the programs by construction from a span started before installation; in a third of the programs goroutines of one phase Unregister the same Registration concurrently; " +
 			"non-trivial = a handle obtained before the installation is used after it AND an Unregister of a pre-install callback runs in the same phase as SetMeterProvider on another goroutine; distinct = distinct case encodings",
 		Quick: 1000, Thorough: 15000,
 		Gen: gen, Run: run, Repeat: 200,
